@@ -227,6 +227,7 @@ def run(rep):
     # must treat the two kinds alike (operand extraction per cast kind x value kind, mixed comparisons; shared with C09)
     import core
     core.import_rules(rep, "c09", {"T-CAST", "T-CMP", "T-STR"})
+    core.import_rules(rep, "c09", {"LOSSY"})
     # YAML, JSON and HashMap documents resolve dotted paths through the one default Object::find; a hand-written Document resolves them itself,
     # following the documented path language: the default has to implement exactly that language
     core.import_rules(rep, "c10", {"T-FIND", "STEP-TOTAL", "INDEX"})
